@@ -179,8 +179,12 @@ class Ctx:
     # --------------------------------------------------------------- streams
     def run_lines(self, exe, args, lines, timeout=3000, env=None):
         data = "\n".join(lines) + "\n"
+        def limit():
+            import resource
+            lim = int(os.environ.get("VERIF_MEM_LIMIT_GB", "6")) << 30
+            resource.setrlimit(resource.RLIMIT_AS, (lim, lim))
         p = subprocess.run([exe] + args, input=data, capture_output=True, text=True, timeout=timeout,
-                           env={**os.environ, **(env or {})})
+                           env={**os.environ, **(env or {})}, preexec_fn=limit)
         out = p.stdout.split("\n")
         if out and out[-1] == "":
             out.pop()
@@ -211,7 +215,10 @@ class Ctx:
         the implementation's answer; a string means the implementation contradicts the spec."""
         t = time.time()
         impl = self.run_lines_robust(harness_exe, [stream], lines, env=env)
-        rc, model, merr = self.run_lines(DRIVER, [driver_stream or stream], lines)
+        try:
+            rc, model, merr = self.run_lines(DRIVER, [driver_stream or stream], lines, timeout=900)
+        except subprocess.TimeoutExpired:
+            rc, model, merr = 1, [], "model driver timed out (a generated case makes the executable model loop)"
         if len(model) != len(lines):
             self.proof_failures.append({"file": "Driver", "decl": f"driver stream {stream}", "line": 0,
                                         "msg": f"driver produced {len(model)} lines for {len(lines)} cases: {merr[-300:]}"})
